@@ -32,7 +32,9 @@ RULE = ('documents generated from a small grammar (sections at three levels, sta
         'foreign renderer, hand-built hostile pickles (wrong shapes at every level, read-only attribute names, empty ids, '
         'non-string keys); sequences save/corrupt/restore/save with several fault points over two jobs and two renderers; job-name '
         'families in one directory (one name a proper suffix or prefix of another, equal up to case, names containing dots) so that '
-        'Compile.parse must skip exactly its own file and restore every other one. '
+        'Compile.parse must skip exactly its own file and restore every other one; save-edit-save histories in which a label loses '
+        'its number, title or macroName (heading -> starred heading / equation / item) or the document loses all labels; damaged files '
+        'rewritten by a document without labels. '
         'Non-trivial = the case contains a fault or at least two labels.')
 TRUSTED = ['modelled, not verified: the pickle module (Section variables pickle/unpickle; single hypothesis unpickle (pickle d) = Some d; '
            'per case the real pickle.loads outcome is given to the Model as the oracle answer)',
@@ -244,6 +246,34 @@ def gen_doc(rng, job, nlabels=None, refs=()):
     for l in refs:
         items.append(['ref', l])
     return {'job': job, 'items': items}
+
+
+def edit_doc(rng, doc):
+    """the same document after an edit that keeps the label keys but changes what they are attached to, so that a label LOSES
+    attributes between two saves: numbered heading -> starred heading (no number), heading / float / package macro -> equation,
+    theorem or list item (no title, no macroName); sometimes the other way round (gains), sometimes a label is dropped"""
+    import copy
+    items = copy.deepcopy(doc['items'])
+    idx = [i for i, it in enumerate(items) if it[0] in ('sec', 'fig', 'tab', 'mark', 'eq', 'thm') and (it[-1] if it[0] != 'eq' and it[0] != 'thm' else it[1])]
+    if not idx:
+        return {'job': doc['job'], 'items': items}
+    chosen = set(i for i in idx if rng.random() < 0.5) or {rng.choice(idx)}
+    for i in chosen:
+        it = items[i]
+        k = it[0]
+        lab = it[1] if k in ('eq', 'thm') else it[-1]
+        if k == 'sec':
+            items[i] = rng.choice([['sec', 3, it[2], lab], ['eq', lab], ['thm', lab], ['item', [lab]], ['sec', 3, it[2], lab]]) if it[1] != 3 \
+                else rng.choice([['sec', 0, it[2], lab], ['eq', lab]])
+        elif k in ('fig', 'tab', 'mark'):
+            items[i] = rng.choice([['eq', lab], ['item', [lab]], ['thm', lab], ['sec', 3, it[1], lab]])
+        elif k == 'eq':
+            items[i] = rng.choice([['sec', 0, rng.randrange(len(TITLES)), lab], ['mark', rng.randrange(len(TITLES)), lab], ['thm', lab]])
+        else:
+            items[i] = rng.choice([['eq', lab], ['sec', 1, rng.randrange(len(TITLES)), lab]])
+    if rng.random() < 0.15 and len(idx) > 1:
+        del items[rng.choice(idx)]
+    return {'job': doc['job'], 'items': items}
 
 
 # ------------------------------------------------------------------------------------------------
@@ -492,7 +522,8 @@ def execute(ops, resolve=False):
                         views = getattr(rend, 'views', None)
                     os.chdir(wd)
                     b = _read(job + '.paux')
-                    obs.append([1, restored, wou, file_term(None if b is None else b.hex()), views])
+                    listing = sorted(f for f in os.listdir('.') if f.endswith('.paux'))
+                    obs.append([1, restored, wou, file_term(None if b is None else b.hex()), views, listing])
                 except Exception as e:
                     if type(e).__name__ == 'CaseTimeout':
                         raise
@@ -692,11 +723,14 @@ def streams(rng, tier, boost):
         if t % 4 == 0:
             prefix.insert(0, run_op(gen_doc(rng, ja, nlabels=0), r2))   # an empty section of another renderer first
         labs = doc_labels(A)
-        A2 = gen_doc(rng, ja, nlabels=rng.choice([1, 2, 3])) if t % 2 == 0 else A    # the document gains/changes labels
+        # what the document is when it saves over the damaged file: without any label / edited (labels lose attributes) / new / same
+        A2 = [gen_doc(rng, ja, nlabels=rng.choice([1, 2, 3])), edit_doc(rng, A), gen_doc(rng, ja, nlabels=0), A][t % 4]
+        if not labs and t % 4 == 1:
+            A2 = gen_doc(rng, ja, nlabels=0)
         D = gen_doc(rng, jd, nlabels=rng.choice([0, 1, 2]), refs=labs[:2])
         tail = [run_op(D, r), run_op(A2, r), dict(op='restore', job=ja, r=r, pre=['pre:1']),
                 dict(op='restore', job=ja, r=r2, pre=[])]
-        templates.append((prefix, tail, ja))
+        templates.append((prefix, tail, ja, r))
         scen.append(('template', len(templates) - 1))
         req.append(prefix + tail)
 
@@ -722,6 +756,29 @@ def streams(rng, tier, boost):
             ops.append(run_op(docs[fam[1]], r2))
         ops += [dict(op='restore', job=j, r=r1, pre=[]) for j in fam[:2]]
         scen.append(('job-names', None))
+        req.append(ops)
+
+    # --- save, edit, save (no fault): a label that loses its number / title / macroName must lose it in the file as well; documents
+    #     that lose all their labels still rewrite their file ------------------------------------------------------------------------
+    nedit = (60 if quick else 300) * boost
+    for i in range(nedit):
+        r1, r2 = rng.sample(RENDERERS, 2)
+        ja, jd, _ = pick_jobs(rng)
+        A = gen_doc(rng, ja, nlabels=rng.choice([1, 2, 3, 4]))
+        A2 = edit_doc(rng, A)
+        la = doc_labels(A)
+        D = gen_doc(rng, jd, nlabels=rng.choice([0, 1]), refs=la[:2])
+        shape = i % 4
+        if shape == 0:
+            ops = [run_op(A, r1), run_op(A2, r1), dict(op='restore', job=ja, r=r1, pre=[]), run_op(D, r1)]
+        elif shape == 1:      # the other renderer's section keeps the old state
+            ops = [run_op(A, r1), run_op(A, r2), run_op(A2, r1), dict(op='restore', job=ja, r=r1, pre=[]), dict(op='restore', job=ja, r=r2, pre=[])]
+        elif shape == 2:      # edit twice, back and forth
+            ops = [run_op(A, r1), run_op(A2, r1), run_op(edit_doc(rng, A2), r1), run_op(D, r1), dict(op='restore', job=ja, r=r1, pre=['pre:1'])]
+        else:                 # all labels removed, then some come back
+            ops = [run_op(A, r1), run_op(gen_doc(rng, ja, nlabels=0), r1), dict(op='restore', job=ja, r=r1, pre=[]), run_op(A2, r1),
+                   dict(op='restore', job=ja, r=r1, pre=[])]
+        scen.append(('save-edit-save', None))
         req.append(ops)
 
     # --- clean sequences (no fault): round trip, per renderer, several documents -------------------------------------------
@@ -767,8 +824,13 @@ def streams(rng, tier, boost):
                                   ['pickle', hostile(rng, rng.choice([r1, r2]), job)]])
                 ops.append(dict(op='corrupt', job=job, how=how))
             elif x < 0.7:
-                if rng.random() < 0.3:
+                y = rng.random()
+                if y < 0.2:
                     docs[job] = gen_doc(rng, job)
+                elif y < 0.4:
+                    docs[job] = edit_doc(rng, docs[job])
+                elif y < 0.5:
+                    docs[job] = gen_doc(rng, job, nlabels=0)
                 ops.append(run_op(docs[job], rng.choice([r1, r1, r2])))
             else:
                 ops.append(dict(op='restore', job=job, r=rng.choice([r1, r2]), pre=rng.choice([[], ['pre:1']])))
@@ -811,9 +873,13 @@ def streams(rng, tier, boost):
         cases.append(('clean', dict(ops=rr['ops'])))
         if not rr['ok']:
             continue
-        prefix, tail, ja = templates[payload]
+        prefix, tail, ja, rt = templates[payload]
         ct = rr['ops'][len(prefix):]
-        snap = rr['snaps'][len(prefix) - 1]
+        snap = rr['snaps'][len(prefix) - 1] if len(rr['snaps'] or []) >= len(prefix) else {}
+        if ja not in snap:
+            # the prefix runs left no <job>.paux (or wrote it under another name): nothing to damage; the scenario itself is
+            # already in the 'clean' stream above, where the missing file is judged (C20:no-paux-written)
+            continue
         b = bytes.fromhex(snap[ja])
         # every truncation point
         for n in range(len(b)):
@@ -832,6 +898,14 @@ def streams(rng, tier, boost):
         for how in [['empty'], ['delete'], ['keep'], ['append', '00'], ['append', '2e'], ['append', b.hex()], ['raw', b'not a pickle\n'.hex()],
                     ['raw', b'\x80\x04N.'.hex()], ['raw', b[1:].hex()], ['raw', (b[:len(b) // 2] + b[len(b) // 2 + 1:]).hex()]]:
             cases.append(('other-faults', dict(ops=set_ops(snap, ja, corrupt(b, how), how) + ct)))
+        # the damaged file is rewritten by a document WITHOUT labels: it must be loadable again all the same
+        U = next((o for o in rr['ops'] if o['op'] == 'run' and o['job'] == ja and not doc_labels(o['doc'])), None)
+        if U is None:
+            U = dict(run_op(gen_doc(rng, ja, nlabels=0), rt), views=[])
+        U = dict(U, r=rt)
+        for how in [['empty'], ['delete'], ['trunc', len(b) // 2], ['trunc', len(b) - 1], ['flip', [rng.randrange(len(b) * 8)]],
+                    ['flip', [rng.randrange(len(b) * 8)]], ['raw', b'\\relax \n\\newlabel{x}{{1}{1}}\n'.hex()], ['raw', b'\x80\x04]\x94.'.hex()]]:
+            cases.append(('unlabelled-resave', dict(ops=set_ops(snap, ja, corrupt(b, how), how) + [U, dict(op='restore', job=ja, r=rt, pre=['pre:1'])])))
         # a file written by a different renderer only (foreign): take the saved file and rename its renderer
         ok, v = loads(b)
         if ok and type(v) is dict:
@@ -972,6 +1046,10 @@ def judge(case, io, mo):
             views = a[4]
             if i < ff and op.get('views') is not None and canon(views) != canon(op['views']):
                 return dict(violation=False, key='C20:views-changed', what='op %d: the labelled nodes differ from the generation run' % i)
+            if a[3] == [0]:
+                return dict(violation=True, key='C20:no-paux-written', expected=m,
+                            what='op %d: the run of job %r under %s left no %s.paux (files present: %s)' % (
+                                i, op['job'], op['r'], op['job'], a[5] if len(a) > 5 else '?'))
             why = file_complete(a[3], op['r'], views)
             if why:
                 return dict(violation=True, key='C20:save-incomplete', expected=m, what='op %d: %s' % (i, why))
